@@ -242,6 +242,63 @@ func rulesC14(w *World, r *Report) {
 			{"p0.step", "0", []int{-1, 0}, "a series with a positive step is rejected, so what AppendTo wrote does not decode"},
 		})
 	}
+	// the fixed-size decoders have nothing to validate: whatever AppendTo wrote decodes
+	for _, tn := range []string{"ArchiveInfo", "Point", "Value", "Timestamp", "Duration"} {
+		tf := fn(w.Lib, tn+".TakeFrom")
+		if tf == nil {
+			continue
+		}
+		idx := errResultIndex(tf)
+		bad := ""
+		n := 0
+		for _, ret := range returnsOf(tf) {
+			if idx < 0 || !isFreshOrSentinel(ret.Results[idx]) {
+				continue
+			}
+			n++
+			short := false
+			for _, b := range tf.Blocks {
+				if len(b.Instrs) == 0 {
+					continue
+				}
+				iff, ok := b.Instrs[len(b.Instrs)-1].(*ssa.If)
+				if !ok {
+					continue
+				}
+				cond, neg := stripNot(iff.Cond)
+				bo, ok := cond.(*ssa.BinOp)
+				if !ok || !isCmp(bo.Op) {
+					continue
+				}
+				ex := newExprCtx(w)
+				flip := 0
+				switch {
+				case strings.HasPrefix(ex.expr(bo.X), "len("):
+					flip = 1
+				case strings.HasPrefix(ex.expr(bo.Y), "len("):
+					flip = -1
+				default:
+					continue
+				}
+				// the edge taken when the source is shorter than what it is compared with (and not when it is longer)
+				tShort, tLong := signOK(bo.Op, -1*flip) != neg, signOK(bo.Op, 1*flip) != neg
+				if tShort == tLong {
+					continue
+				}
+				sc := b.Succs[1]
+				if tShort {
+					sc = b.Succs[0]
+				}
+				if edgeDominates(b, sc, ret.Block()) {
+					short = true
+				}
+			}
+			if !short && bad == "" {
+				bad = "the failure at " + w.instrPos(ret) + " is not the outcome of a length test on the source bytes"
+			}
+		}
+		r.Check(bad == "", "C14.R6", tn+".TakeFrom:fails-only-short", w.pos(tf.Pos()), fmt.Sprintf("%d own failure returns, each behind a length test", n), tn+".TakeFrom: "+bad+": a value AppendTo writes is refused, so encoding then decoding no longer gives the value back")
+	}
 	if tf := fn(w.Lib, "TimeSeries.TakeFrom"); tf != nil {
 		// the zero series (what AppendTo writes for an absent series) decodes successfully
 		e := &ddEngine{w: w, env: map[ssa.Value]aval{}, maxLeafs: 512, maxAtoms: 12, stop: isLoopHeader} // the value loop lies behind the validation
